@@ -308,6 +308,7 @@ func (c *VC) execBlock(st *State, stmts []ast.Stmt) {
 }
 
 func (c *VC) exec(st *State, s ast.Stmt) {
+	c.siteAsserts(st, s)
 	switch s := s.(type) {
 	case *ast.BlockStmt:
 		c.execBlock(st, s.List)
@@ -1632,4 +1633,39 @@ func (c *VC) execTypeSwitch(st *State, s *ast.TypeSwitchStmt, label string) {
 	fr.targets = fr.targets[:len(fr.targets)-1]
 	ends = append(ends, tg.breaks...)
 	st.set(c.mergeAll(ends))
+}
+
+// siteAsserts: `//@ site <stmt>: e` states that e holds immediately before every statement of the
+// function under verification whose source text starts with <stmt> (first line).
+func (c *VC) siteAsserts(st *State, s ast.Stmt) {
+	if c.ghost > 0 || len(c.frames) != 1 || st.dead() {
+		return
+	}
+	d := c.fn.Dir
+	if c.fn.Contract != nil {
+		d = c.fn.Contract.Dir
+	}
+	if d == nil || len(d.Sites) == 0 {
+		return
+	}
+	switch s.(type) {
+	case *ast.BlockStmt, *ast.LabeledStmt:
+		return
+	}
+	text := exprText(c.prog.fset, s)
+	if i := strings.IndexByte(text, '\n'); i >= 0 {
+		text = text[:i]
+	}
+	text = strings.TrimSpace(text)
+	for _, cs := range d.Sites {
+		if cs.Callee != text {
+			continue
+		}
+		t, err := c.evalDirective(st, cs.Expr, s.Pos())
+		if err != nil {
+			c.prog.errors = append(c.prog.errors, fmt.Sprintf("CONTRACT-STALE %s site %q %q: %v", c.fn.Name, cs.Callee, cs.Expr, err))
+			continue
+		}
+		c.addObl("site", cs.Callee+": "+cs.Expr, s.Pos(), st.pc, t)
+	}
 }
